@@ -59,13 +59,39 @@ Qed.
 Lemma unq_valid s : valid_text s -> exists b, unq s = Some b.
 Proof. intros H. unfold unq. destruct (utf8_encode_total s H) as [b ->]. eauto. Qed.
 
+(* what the groups returned by PathMatches' regex call mean *)
+Definition pm_parse (p : pathm) (s : str) (caps : list str) : Prop :=
+  if pm_whole p then pmatch (rx_pieces (pm_rx p)) s caps else rx_accepts (pm_rx p) s caps.
+
+Lemma pm_caps_sound p s caps : pm_caps p s = Some caps -> pm_parse p s caps.
+Proof.
+  unfold pm_caps, pm_parse. destruct (pm_whole p).
+  - apply whole_match_sound.
+  - destruct (rx_match (pm_rx p) s) as [[c rest]|] eqn:E; [|discriminate]. intros H. inversion H; subst.
+    eapply rx_match_sound. exact E.
+Qed.
+
+Lemma pm_caps_strict p s : (exists caps, pm_caps p s = Some caps) <-> pm_strict p s = true.
+Proof.
+  unfold pm_caps, pm_strict. destruct (pm_whole p).
+  - apply whole_match_iff_full.
+  - destruct (rx_match (pm_rx p) s) as [[c rest]|]; split; eauto; try discriminate. intros [c H]. discriminate.
+Qed.
+
+Lemma pm_parse_sub p s caps : pm_parse p s caps -> forall cap c, In cap caps -> In c cap -> In c s.
+Proof.
+  unfold pm_parse. destruct (pm_whole p).
+  - apply pmatch_caps_sub.
+  - intros (s0 & tl & -> & Hp & _) cap c Hcap Hc. apply in_or_app. left. eapply pmatch_caps_sub; eassumption.
+Qed.
+
 Lemma pm_match_no_err p path : valid_text path -> pm_match p path <> MErr.
 Proof.
-  intros Hv. unfold pm_match. destruct (whole_match (pm_rx p) path) as [caps|] eqn:E; [|discriminate].
-  apply whole_match_sound in E.
+  intros Hv. unfold pm_match. destruct (pm_caps p path) as [caps|] eqn:E; [|discriminate].
+  apply pm_caps_sound in E.
   destruct (map_opt_some unq caps) as [ys ->]; [|discriminate].
   intros cap Hcap. apply unq_valid. apply Forall_forall. intros c Hc.
-  unfold valid_text in Hv. rewrite Forall_forall in Hv. apply Hv. eapply pmatch_caps_sub; eassumption.
+  unfold valid_text in Hv. rewrite Forall_forall in Hv. apply Hv. eapply pm_parse_sub; eassumption.
 Qed.
 
 Lemma m_match_no_err rq m : valid_text (rq_path rq) -> m_match m rq <> MErr.
@@ -151,10 +177,10 @@ Proof.
       apply whole_match_iff_full in F as [caps F]. congruence.
   - destruct (rq_xreal rq); [reflexivity|]. simpl. destruct (rx_match r d); reflexivity.
   - pose proof (pm_match_no_err p (rq_path rq) Hv) as Hne. unfold pm_match in *.
-    destruct (whole_match (pm_rx p) (rq_path rq)) as [caps|] eqn:E.
-    + destruct (map_opt unq caps); [|congruence]. symmetry. apply whole_match_iff_full. eauto.
-    + destruct (rx_full (pm_rx p) (rq_path rq)) eqn:F; [|reflexivity].
-      apply whole_match_iff_full in F as [caps F]. congruence.
+    destruct (pm_caps p (rq_path rq)) as [caps|] eqn:E.
+    + destruct (map_opt unq caps); [|congruence]. symmetry. apply pm_caps_strict. eauto.
+    + destruct (pm_strict p (rq_path rq)) eqn:F; [|reflexivity].
+      apply pm_caps_strict in F as [caps F]. congruence.
 Qed.
 
 Lemma leaf_ok_strict rq lf : valid_text (rq_path rq) -> leaf_ok rq lf = leaf_strict rq lf.
@@ -182,11 +208,22 @@ Definition m_accepts (rq : request) (m : matcher) : Prop :=
   | MAny => True
   | MHost r => rx_whole r (rq_host rq)
   | MDefHost r d => rq_xreal rq = false /\ exists caps, rx_accepts r d caps
-  | MPath p => rx_whole (pm_rx p) (rq_path rq)
+  | MPath p =>   (* string pattern: whole path; precompiled pattern: Pattern.match semantics *)
+      exists caps, pm_parse p (rq_path rq) caps
   end.
 
 Definition leaf_accepts (rq : request) (lf : list matcher * matcher * N) : Prop :=
   Forall (m_accepts rq) (fst (fst lf)) /\ m_accepts rq (snd (fst lf)).
+
+Lemma pm_strict_iff p s : pm_strict p s = true <-> exists caps, pm_parse p s caps.
+Proof.
+  unfold pm_strict, pm_parse. destruct (pm_whole p).
+  - apply rx_full_iff.
+  - split.
+    + destruct (rx_match (pm_rx p) s) as [[caps rest]|] eqn:E; [|discriminate]. intros _.
+      exists caps. eapply rx_match_sound. exact E.
+    + intros [caps H]. apply rx_match_complete in H as (c & rest & ->). reflexivity.
+Qed.
 
 Lemma m_strict_iff rq m : m_strict rq m = true <-> m_accepts rq m.
 Proof.
@@ -196,7 +233,7 @@ Proof.
   - rewrite andb_true_iff, negb_true_iff. split; intros [H1 H2]; (split; [exact H1|]).
     + destruct (rx_match r d) as [[caps rest]|] eqn:E; [|discriminate]. exists caps. eapply rx_match_sound. exact E.
     + destruct H2 as [caps H2]. apply rx_match_complete in H2 as (c & rest & ->). reflexivity.
-  - apply rx_full_iff.
+  - apply pm_strict_iff.
 Qed.
 
 Lemma leaf_strict_iff rq lf : leaf_strict rq lf = true <-> leaf_accepts rq lf.
@@ -226,8 +263,8 @@ Proof. intros H. destruct (leaf_strict rq lf) eqn:E; [|reflexivity]. exfalso. ap
 Definition leaf_args (rq : request) (m : matcher) (args : list (list N)) : Prop :=
   match m with
   | MPath p =>
-      exists caps, pmatch (rx_pieces (pm_rx p)) (rq_path rq) caps /\
-                   whole_match (pm_rx p) (rq_path rq) = Some caps /\
+      exists caps, pm_parse p (rq_path rq) caps /\
+                   pm_caps p (rq_path rq) = Some caps /\
                    map_opt unq caps = Some args
   | _ => args = []
   end.
@@ -238,9 +275,9 @@ Proof.
   - intros H. inversion H. reflexivity.
   - destruct (whole_match r (rq_host rq)); intros H; inversion H. reflexivity.
   - destruct (rq_xreal rq); [discriminate|]. destruct (rx_match r d); intros H; inversion H. reflexivity.
-  - unfold pm_match. destruct (whole_match (pm_rx p) (rq_path rq)) as [caps|] eqn:E; [|discriminate].
+  - unfold pm_match. destruct (pm_caps p (rq_path rq)) as [caps|] eqn:E; [|discriminate].
     destruct (map_opt unq caps) as [a|] eqn:F; [|discriminate]. intros H. inversion H; subst.
-    exists caps. repeat split; try assumption. apply whole_match_sound. exact E.
+    exists caps. repeat split; try assumption. apply pm_caps_sound. exact E.
 Qed.
 
 Theorem first_match_dispatch a rq l1 anc m h l2 :
